@@ -35,7 +35,7 @@ SIZES = [(1, 1), (2, 2), (3, 2), (1, 9), (9, 1), (2, 17)]
 CORE_PATTERNS = ["all_idle", "monitor", "monitor_plus5", "chip_specific",
                  "adjacent_runs", "last_core", "global5_local2",
                  "everything_busy", "alternate", "disjoint", "first_idle",
-                 "last_idle"]
+                 "last_idle", "dead_cores"]
 LINK_PATTERNS = ["all", "none", "asym"] + ["only%d" % i for i in range(6)]
 
 
@@ -94,6 +94,11 @@ def core_states(pattern, x, y, n):
             st[2] = ST_RUN
         if x == 0 and y == 0:
             st[7] = 2
+    elif pattern == "dead_cores":
+        # AppState.dead (0) is a state like any other non-idle one
+        st[3] = 0
+        if (x + y) % 2 == 0:
+            st[6 + x] = 0
     elif pattern == "everything_busy":
         st = [ST_RUN] * 18
     elif pattern == "alternate":
@@ -523,23 +528,26 @@ def part_status_iobuf(params, tier, acc):
                     break
     # router diagnostics
     sim = make_sim(dict(size=[2, 2]))
-    words = [(i * 0x01010101 + 7) & 0xffffffff for i in range(16)]
-    sim.chips[(1, 1)].mem.write(RTR_DIAG, struct.pack("<16I", *words))
-    with Session(sim) as s:
-        acc.evaluations += 1
-        rd = s.mc.get_router_diagnostics(1, 1)
-        names = ["local_multicast", "external_multicast", "local_p2p",
-                 "external_p2p", "local_nearest_neighbour",
-                 "external_nearest_neighbour", "local_fixed_route",
-                 "external_fixed_route", "dropped_multicast", "dropped_p2p",
-                 "dropped_nearest_neighbour", "dropped_fixed_route",
-                 "counter12", "counter13", "counter14", "counter15"]
-        got = [getattr(rd, n) for n in names]
-        if got != words:
-            acc.violation(dict(kind="router_diagnostics"),
-                          dict(size=[2, 2], diag=True),
-                          "router counters %r, registers hold %r" % (got,
-                                                                     words))
+    for words in ([(i * 0x01010101 + 7) & 0xffffffff for i in range(16)],
+                  [0xffffffff - i for i in range(16)],
+                  [(0x80000000 >> (i % 3)) + i for i in range(16)],
+                  [0] * 16):
+        sim.chips[(1, 1)].mem.write(RTR_DIAG, struct.pack("<16I", *words))
+        with Session(sim) as s:
+            acc.evaluations += 1
+            rd = s.mc.get_router_diagnostics(1, 1)
+            names = ["local_multicast", "external_multicast", "local_p2p",
+                     "external_p2p", "local_nearest_neighbour",
+                     "external_nearest_neighbour", "local_fixed_route",
+                     "external_fixed_route", "dropped_multicast", "dropped_p2p",
+                     "dropped_nearest_neighbour", "dropped_fixed_route",
+                     "counter12", "counter13", "counter14", "counter15"]
+            got = [getattr(rd, n) for n in names]
+            if got != words:
+                acc.violation(dict(kind="router_diagnostics"),
+                              dict(size=[2, 2], diag=True),
+                              "router counters %r, registers hold %r" % (got,
+                                                                         words))
 
 
 def part_p2p(params, tier, acc):
